@@ -24,8 +24,8 @@ from vlib import proof_coverage
 
 LEVEL = "proof"
 N_QUICK = {"mixed": 30, "straight": 20}
-N_THOROUGH = {"mixed": 300, "straight": 160}
-TRACE_QUICK, TRACE_THOROUGH = 40, 300
+N_THOROUGH = {"mixed": 200, "straight": 100}
+TRACE_QUICK, TRACE_THOROUGH = 40, 200
 MAX_REPORTS = 3
 C03 = vlib.VERIF / "props" / "C03"
 
